@@ -90,6 +90,8 @@ class SV(ASTNode):
     ti: tuple[int, ...] = ()
     tsi: tuple[str, int] | None = None
     nc: int = field(default=0, compare=False)
+    kw: int = field(default=0, kw_only=True)               # keyword-only
+    hid: int = field(default=0, repr=False, hash=False)     # other dataclass options that have no bearing on serialization
 
 
 @dataclass(frozen=True, slots=True)
@@ -107,6 +109,9 @@ class SP(ASTNode):
 
     def __len__(self) -> int:  # container-like: falsy in a boolean context while `items` is empty (may still hold other children)
         return len(self.items)
+
+    def __iter__(self):  # container-like: iterating over the node yields its `items`
+        return iter(self.items)
 
 
 @dataclass(frozen=True)
@@ -132,6 +137,8 @@ VALUES = {
     "ti": [(), (1,), (1, 2, 3)],
     "tsi": [None, ("a", 1), ("", -1)],
     "nc": [0, 5],
+    "kw": [0, 3],
+    "hid": [0, 4],
 }
 
 MS1 = MemoryTextSource("hello world", source_uri="mem://c04-1")
